@@ -9,14 +9,18 @@ RULE = ("each obligation is one Kani/CBMC query over the real FreeList<T> accoun
 
 
 def plan(tier):
-    return [{"h": "heap_weak_collection_step", "sym": "reachable[3], value[3], held[3], cursor"},
-            {"h": "heap_reset_and_recount_step", "sym": "pre-state + marked[3]"}]
+    q = [{"h": "heap_weak_collection_step", "sym": "reachable[3], value[3], held[3], cursor"},
+         {"h": "heap_reset_and_recount_step", "sym": "pre-state + marked[3]"},
+         {"h": "heap_roots_history", "sym": "root(a); g1 <= 2 generation increments; root(b); g2 <= 2 increments; free one of the two tokens"}]
+    t = [{"h": "heap_grow_step", "sym": "any valid 3-slot state incl. a full heap; grow_by(2)"}]
+    return q + (t if tier == "thorough" else [])
 
 
 def check(pid, tier, seed):
     return p_kani.check(pid, tier, seed, c04.SPECS, plan(tier), c04.FUNCS, {"slots": 3, "unwind": 5},
-                        c04.ASSUME + ["cyclic garbage, the trigger policy and weak boxes are outside the claim (they need the marker and a running VM)"],
-                        RULE, slots=2, timeout=2400)
+                        c04.ASSUME + ["heap_roots_history: the FxHashMap of Roots is replaced by a 4-entry association list (trusted: a finite map)", "cyclic garbage, the trigger policy and weak boxes are outside the claim (they need the marker and a running VM)"],
+                        RULE + "; host roots: after releasing one of two root tokens made in arbitrary generations exactly the other value is still rooted",
+                        slots=3, timeout=2400)
 
 
 def replay(pid, path):
